@@ -16,10 +16,16 @@
        (PrecOps!Reparse: the print -> ParseExpr regrouping model that C03 validates against
        the real parser) and folded by Reduce (TimeSplit!ReduceTop).
 
+   The property is judged on three observations of the statement after each call: through the
+   splitter (StepOK), the plain boolean reading of the condition itself (PlainOKAst / PlainOKSk) and
+   the printed condition parsed back (PrintFaithful).
+
    Windows are [s |-> instant, e |-> instant].                                            *)
 EXTENDS TimeSplit
 
-CONSTANT FixedStrip   \* FALSE: the design as it is.  TRUE: the proposed repair (either side, any case)
+CONSTANT FixedStrip,  \* TRUE: the rewrite recognises time on either side, any case (repair bbd7903).  FALSE: before it
+         ParenTopOr   \* TRUE: a stripped condition that is a top-level OR is joined as `( ... ) AND window`
+                      \*       (repair adfd172).  FALSE: joined without parentheses, as before it
 
 PO == INSTANCE PrecOps
 
@@ -28,8 +34,11 @@ WindowHolds(w, t) == Le(w.s, t) /\ Lt(t, w.e)
 \* prevNT: truth table (Cond!ValIdx) of the non-time part of the condition before the call
 StepOKAt(lo, hi, rt, w, prevNT, t, val) ==
   (InRange(lo, hi, t) /\ ResTruth(rt, val)) <=> (WindowHolds(w, t) /\ prevNT[ValIdx(val)])
+\* = \A t \in grid : \A val \in Vals : StepOKAt(lo, hi, rt, w, prevNT, t, val), written over the positions
+\* 1..8 of the truth tables (ValIdx is a bijection from Vals) so that the two time tests are made once per instant
 StepOK(lo, hi, rt, w, prevNT, grid) ==
-  \A t \in grid : \A val \in Vals : StepOKAt(lo, hi, rt, w, prevNT, t, val)
+  \A t \in grid : LET ir == InRange(lo, hi, t) wt == WindowHolds(w, t) IN
+                   \A j \in 1..8 : (ir /\ (rt = <<>> \/ rt[j])) <=> (wt /\ prevNT[j])
 NoGrowth(before, after) == after <= before
 
 \* the non-time part of an initial condition (symbolic tree) as a truth table
@@ -84,6 +93,43 @@ AstHolds(e, t, val) ==
          ELSE EvalB(e, val)
     [] e.k = "ParenExpr" -> AstHolds(e.Expr, t, val)
     [] OTHER -> EvalB(e, val)
+\* (P, plain reading) the condition the statement holds, read as a plain boolean formula, selects exactly
+\* the points with start <= t < end that satisfy the non-time part of the previous condition
+PlainOKAst(e, w, prevNT, grid) ==
+  \A t \in grid : \A val \in Vals : AstHolds(e, t, val) <=> (WindowHolds(w, t) /\ prevNT[ValIdx(val)])
+\* (evaluation only) when no time leaf stands under an OR node the skeleton is a conjunction of time leaves and
+\* time-free sub-formulas, so SkHolds(sk, t, val) = SkTimePart(sk, t) /\ SkNTPart(sk, val): |grid| + 8 evaluations
+\* instead of |grid| * 8.  With a time leaf under an OR the direct definition is used.
+RECURSIVE SkTimeUnderOr(_, _)
+SkTimeUnderOr(sk, under) ==
+  CASE sk.n = "par" -> SkTimeUnderOr(sk.e, under)
+    [] sk.n = "and" -> SkTimeUnderOr(sk.l, under) \/ SkTimeUnderOr(sk.r, under)
+    [] sk.n = "or" -> SkTimeUnderOr(sk.l, TRUE) \/ SkTimeUnderOr(sk.r, TRUE)
+    [] sk.n = "time" -> under
+    [] OTHER -> FALSE
+RECURSIVE SkTimePart(_, _)
+SkTimePart(sk, t) ==
+  CASE sk.n = "par" -> SkTimePart(sk.e, t)
+    [] sk.n = "and" -> SkTimePart(sk.l, t) /\ SkTimePart(sk.r, t)
+    [] sk.n = "time" -> InRange(sk.lo, sk.hi, t)
+    [] OTHER -> TRUE
+RECURSIVE SkNTPart(_, _)
+SkNTPart(sk, val) ==
+  CASE sk.n = "par" -> SkNTPart(sk.e, val)
+    [] sk.n = "and" -> SkNTPart(sk.l, val) /\ SkNTPart(sk.r, val)
+    [] sk.n = "or" -> SkNTPart(sk.l, val) \/ SkNTPart(sk.r, val)
+    [] sk.n = "bool" -> sk.b
+    [] sk.n = "time" -> TRUE
+    [] sk.n = "nt" -> sk.rt[ValIdx(val)]
+    [] OTHER -> FALSE
+PlainOKSk(sk, w, prevNT, grid) ==
+  /\ ~SkBad(sk)
+  /\ IF SkTimeUnderOr(sk, FALSE)
+     THEN \A t \in grid : \A val \in Vals : SkHolds(sk, t, val) <=> (WindowHolds(w, t) /\ prevNT[ValIdx(val)])
+     ELSE LET np == [j \in 1..8 |-> SkNTPart(sk, ValSeq[j])] IN
+          \A t \in grid : LET tp == SkTimePart(sk, t) wt == WindowHolds(w, t) IN
+                           \A j \in 1..8 : (tp /\ np[j]) <=> (wt /\ prevNT[j])
+
 PrintFaithful(e, grid) == LET back == PO!Reparse(e) IN
                           back = e \/ \A t \in grid : \A val \in Vals : AstHolds(e, t, val) = AstHolds(back, t, val)
 
@@ -110,11 +156,17 @@ Strip(e, fixed) ==
     [] OTHER -> e
 
 WinLit(i) == [k |-> "TLit", i |-> i, f |-> "rfc"]
-Appended(c, w, fixed) == Bin("AND", Bin("AND", Strip(c, fixed), Bin(">=", Ref("time"), WinLit(w.s))),
-                             Bin("<", Ref("time"), WinLit(w.e)))
+\* rewriteWithoutTimeDimensions: the stripped condition as it is printed into the new text
+Joined(c, fixed, paren) == LET st == Strip(c, fixed) IN
+                           IF paren /\ st.k = "BinaryExpr" /\ st.Op = "OR" THEN Paren(st) ELSE st
+Appended(c, w, fixed, paren) == Bin("AND", Bin("AND", Joined(c, fixed, paren), Bin(">=", Ref("time"), WinLit(w.s))),
+                                    Bin("<", Ref("time"), WinLit(w.e)))
 \* SetTimeRange: strip, print + append, re-parse, Reduce
-SetTRx(c, w, fixed) == ReduceTop(PO!Reparse(Appended(c, w, fixed)))
-SetTR(c, w) == SetTRx(c, w, FixedStrip)
+SetTRx(c, w, fixed, paren) == ReduceTop(PO!Reparse(Appended(c, w, fixed, paren)))
+SetTR(c, w) == SetTRx(c, w, FixedStrip, ParenTopOr)
+
+\* the initial condition is a bare top-level OR (joined without parentheses by the unrepaired code)
+RootIsOr(c) == c.n = "or" \/ (c.n = "leaf" /\ c.x.a = "or" /\ ~c.x.par)
 
 \* the initial condition has a time bound that the (unrepaired) rewrite cannot see
 Unstrippable(c) == \E x \in SeqRange(TimeAtomsOf(c)) : x.side = "R" \/ x.sp \in {"Time", "TIME"}
